@@ -52,7 +52,7 @@ def main():
         results = json.load(open(args.out))
     done = {r["patch"] for r in results}
     for name in sorted(os.listdir(args.dir)):
-        if not name.endswith(".diff") or args.only not in name or name in done:
+        if not name.endswith(".diff") or name in done or not any(o in name for o in args.only.split(",")):
             continue
         key = name.split("_")[0]
         path = os.path.join(args.dir, name)
